@@ -1680,6 +1680,11 @@ type c07Scn struct {
 	Burst    int      `json:"burst"`    // lines per pacing burst
 	PauseUs  int      `json:"pause_us"` // pause between bursts
 	UnspUs   int      `json:"unspool_us"`
+	// spool files that roll during the outage: the file size limit is SpoolRecs records of a three-digit-id line
+	// plus SpoolAlign bytes (0: the records of a file end exactly at the limit); 0 records = the 4 MiB of the other scenarios
+	SpoolRecs  int `json:"spool_recs"`
+	SpoolAlign int `json:"spool_align"`
+	SpoolSync  int `json:"spool_syncevery"`
 }
 
 func TestC07(t *testing.T) {
@@ -1739,11 +1744,55 @@ func runC07(s c07Scn, spoolRoot string, prog *hx.Log) []ev {
 	if unsp <= 0 {
 		unsp = time.Microsecond
 	}
-	d := newDest(rname, e.addr(), dir, true, s.FlushMs, 200, s.ConnBuf, s.IoBuf, s.SpoolBuf, unsp)
+	var d *destination.Destination
+	if s.SpoolRecs > 0 {
+		rec := int64(4 + len(mkLine(prefix, 100, suffix)))
+		se := int64(s.SpoolSync)
+		if se <= 0 {
+			se = 10000
+		}
+		m, _ := matcher.New("", "", "", "", "", "")
+		var err error
+		d, err = destination.New(rname, m, e.addr(), dir, true, false, time.Duration(s.FlushMs)*time.Millisecond, 200*time.Millisecond,
+			s.ConnBuf, s.IoBuf, s.SpoolBuf, int64(s.SpoolRecs)*rec+int64(s.SpoolAlign), se, time.Second, time.Microsecond, unsp)
+		if err != nil {
+			panic(err)
+		}
+		evs = append(evs, ev{"ev": "spoolcfg", "scn": s.ID, "rec": rec, "maxbytes": int64(s.SpoolRecs)*rec + int64(s.SpoolAlign)})
+	} else {
+		d = newDest(rname, e.addr(), dir, true, s.FlushMs, 200, s.ConnBuf, s.IoBuf, s.SpoolBuf, unsp)
+	}
 	key := d.Key
 	st := newHState(key)
 	base := readCounters(key)
 	d.Run()
+	// highest spool file number and largest number of spool files seen together (did the files roll? was the reader behind?)
+	var spoolMaxFile, spoolMaxFiles int64 = -1, 0
+	stopWatch := make(chan struct{})
+	defer close(stopWatch)
+	if s.SpoolRecs > 0 {
+		go func() {
+			for {
+				select {
+				case <-stopWatch:
+					return
+				case <-time.After(2 * time.Millisecond):
+				}
+				names, _ := filepath.Glob(filepath.Join(dir, "*.diskqueue.*.dat"))
+				if int64(len(names)) > atomic.LoadInt64(&spoolMaxFiles) {
+					atomic.StoreInt64(&spoolMaxFiles, int64(len(names)))
+				}
+				for _, n := range names {
+					p := strings.Split(filepath.Base(n), ".")
+					if len(p) >= 3 {
+						if k, err := strconv.Atoi(p[len(p)-2]); err == nil && int64(k) > atomic.LoadInt64(&spoolMaxFile) {
+							atomic.StoreInt64(&spoolMaxFile, int64(k))
+						}
+					}
+				}
+			}
+		}()
+	}
 	rng := rand.New(rand.NewSource(hx.Seed()*1000 + int64(s.ID)))
 	_ = rng
 
@@ -1947,6 +1996,7 @@ func runC07(s c07Scn, spoolRoot string, prog *hx.Log) []ev {
 		"slow_conn": int(c.slowConn), "slow_spool": int(c.slowSpool), "down": int(c.down),
 		"depth": int(d.VerifSpoolDepth()), "buffered": d.VerifSpoolBuffered(), "online": onl, "drained": drained,
 		"complete": complete, "hooks": hc, "f10win": f10win, "slow_unspool": slowUnsp, "incarnations": e.inc,
-		"conn_replaced": st.nReplaced(), "redo_span_ms": st.span()})
+		"conn_replaced": st.nReplaced(), "redo_span_ms": st.span(),
+		"spool_maxfile": int(atomic.LoadInt64(&spoolMaxFile)), "spool_maxfiles": int(atomic.LoadInt64(&spoolMaxFiles))})
 	return evs
 }
